@@ -53,6 +53,10 @@ func (d *Datastore) Get(ctx context.Context, req *sdcpb.GetDataRequest, nCh chan
 			return status.Error(codes.InvalidArgument, "cannot query STATE data from INTENDED store")
 		}
 	}
+	// a combination that selects no store at all (the state data of a candidate) is refused, not answered with nothing
+	if len(getStores(req)) == 0 {
+		return status.Errorf(codes.InvalidArgument, "no %s data in datastore %q", req.GetDataType(), req.GetDatastore().GetName())
+	}
 
 	switch req.GetEncoding() {
 	case sdcpb.Encoding_STRING:
